@@ -64,92 +64,11 @@ def m44Of (a : Array F) (o : Nat) : M44 F :=
   ⟨a[o]!, a[o+1]!, a[o+2]!, a[o+3]!, a[o+4]!, a[o+5]!, a[o+6]!, a[o+7]!, a[o+8]!, a[o+9]!, a[o+10]!, a[o+11]!,
    a[o+12]!, a[o+13]!, a[o+14]!, a[o+15]!⟩
 
-/-- materialise a function matrix into an array (so that closures do not pile up between steps; `noinline`
-keeps the compiler from fusing the projections back into the closure) -/
-@[noinline] def matArr (n : Nat) (f : Mat F) : Array F :=
-  (Array.range (n * n)).map fun t => f (t / n) (t % n)
-@[noinline] def vecArr (n : Nat) (f : Nat → F) : Array F := (Array.range n).map f
-@[noinline] def matOfArr (n : Nat) (a : Array F) : Mat F := fun i j => if i < n ∧ j < n then a[n * i + j]! else 0
-@[noinline] def vecOfArr (a : Array F) : Nat → F := fun i => a[i]!
 def matL (n : Nat) (f : Mat F) : List F := if n == 3 then m33L (M33.ofFn f) else m44L (M44.ofFn f)
 def vecL (n : Nat) (f : Nat → F) : List F := (List.range n).map f
-def ident : Mat F := fun i j => if i = j then 1 else 0
 
-def pairs (n : Nat) : List (Nat × Nat) :=
-  if n == 3 then [(0, 1), (0, 2), (1, 2)] else [(0, 1), (0, 2), (0, 3), (1, 2), (1, 3), (2, 3)]
-
-/-- `maxOffDiag`: `result = std::max (result, std::abs (A[i][j]))` over i ≠ j, row-major -/
-def maxOffDiag (n : Nat) (A : Mat F) : F :=
-  (List.range n).foldl (fun r i => (List.range n).foldl (fun r j => if i != j then smax r (sabs (A i j)) else r) r) 0
-/-- `maxOffDiagSymm`: upper triangle only -/
-def maxOffDiagSymm (n : Nat) (A : Mat F) : F :=
-  (List.range n).foldl (fun r i => (List.range n).foldl (fun r j => if i < j then smax r (sabs (A i j)) else r) r) 0
-
-def det3 (m : Mat F) : F :=
-  m 0 0 * (m 1 1 * m 2 2 - m 1 2 * m 2 1) + m 0 1 * (m 1 2 * m 2 0 - m 1 0 * m 2 2) + m 0 2 * (m 1 0 * m 2 1 - m 1 1 * m 2 0)
-
-/-- iteration state as DATA (arrays): a function-valued state would be re-evaluated at every access -/
-structure SVDArr (F : Type) where
-  A : Array F
-  U : Array F
-  V : Array F
-
-/-- one sweep of twoSidedJacobiSVD; returns (changed, state) -/
-def svdSweep (fm : Fmt F) (n : Nat) (tol : F) (st : SVDArr F) : Bool × SVDArr F :=
-  (pairs n).foldl (fun (acc : Bool × SVDArr F) jk =>
-    let r := twoSidedJacobiRotation tol fm.sqrt jk.1 jk.2
-      ⟨matOfArr n acc.2.A, matOfArr n acc.2.U, matOfArr n acc.2.V⟩
-    (r.1 || acc.1, ⟨matArr n r.2.A, matArr n r.2.U, matArr n r.2.V⟩)) (false, st)
-
-/-- `do { sweep; if (!changed) break; } while (maxOffDiag (A) > absTol && numIter < maxIter)` -/
-def svdLoop (fm : Fmt F) (n : Nat) (tol absTol : F) : Nat → Nat → SVDArr F → SVDArr F
-  | 0, _, st => st
-  | fuel + 1, numIter, st =>
-    let numIter := numIter + 1
-    let r := svdSweep fm n tol st
-    if !r.1 then r.2
-    else if absTol < maxOffDiag n (matOfArr n r.2.A) && numIter < 20 then svdLoop fm n tol absTol fuel numIter r.2 else r.2
-
-/-- whole `twoSidedJacobiSVD`.  The determinants of `forcePositiveDeterminant` are inputs: the harness passes the values
-`U.determinant ()`, `V.determinant ()` that the real code computes on the result of the run without the flag (the same
-`U`, `V` at that point of the code), so that no second determinant routine has to be modelled here. -/
-def svdFull (fm : Fmt F) (n : Nat) (force : Bool) (detU detV : F) (tol : F) (A : Mat F) : USV F :=
-  let absTol := tol * maxOffDiag n A
-  let st0 : SVDArr F := ⟨matArr n A, matArr n ident, matArr n ident⟩
-  let st := if absTol != 0 then svdLoop fm n tol absTol 21 0 st0 else st0
-  let t : USV F := ⟨matOfArr n st.U, vecOfArr (vecArr n fun i => matOfArr n st.A i i), matOfArr n st.V⟩
-  let t := if n == 3 then post3 t else post4 t
-  let t : USV F := ⟨matOfArr n (matArr n t.U), vecOfArr (vecArr n t.S), matOfArr n (matArr n t.V)⟩
-  if force then forcePos (n - 1) detU detV t else t
-
-structure EigArr (F : Type) where
-  A : Array F
-  S : Array F
-  V : Array F
-
-def eigSweep (fm : Fmt F) (n : Nat) (tol : F) (st : EigArr F) : Bool × Array F × Array F × Array F :=
-  -- (changed, A, V, Z)
-  (pairs n).foldl (fun (acc : Bool × Array F × Array F × Array F) jk =>
-    let r := jacobiRotation tol fm.sqrt n jk.1 jk.2 ⟨matOfArr n acc.2.1, matOfArr n acc.2.2.1, vecOfArr acc.2.2.2⟩
-    (r.1 || acc.1, matArr n r.2.A, matArr n r.2.V, vecArr n r.2.Z)) (false, st.A, st.V, vecArr n fun _ => 0)
-
-/-- jacobiEigenSolver: state (A, S, V) -/
-def eigLoop (fm : Fmt F) (n : Nat) (tol absTol : F) : Nat → Nat → EigArr F → EigArr F
-  | 0, _, st => st
-  | fuel + 1, numIter, st =>
-    let numIter := numIter + 1
-    let r := eigSweep fm n tol st
-    -- for i: A[i][i] = S[i] += Z[i]
-    let S' := vecArr n fun i => st.S[i]! + r.2.2.2[i]!
-    let A' := matArr n fun i j => if i = j ∧ i < n then S'[i]! else matOfArr n r.2.1 i j
-    let st' : EigArr F := ⟨A', S', r.2.2.1⟩
-    if !r.1 then st'
-    else if absTol < maxOffDiagSymm n (matOfArr n A') && numIter < 20 then eigLoop fm n tol absTol fuel numIter st' else st'
-
-def eigFull (fm : Fmt F) (n : Nat) (tol : F) (A : Mat F) : EigArr F :=
-  let st0 : EigArr F := ⟨matArr n A, vecArr n fun i => A i i, matArr n ident⟩
-  let absTol := tol * maxOffDiagSymm n A
-  if absTol != 0 then eigLoop fm n tol absTol 21 0 st0 else st0
+/-! The solver loops are NOT written here: `svdFull` / `eigFull` below are `Model/Jacobi.lean`'s definitions (section `loops`), the
+ones the theorems of Lemmas/C12Loops.lean are about. -/
 
 def ear33Line (fm : Fmt F) (a : Array F) : String :=
   match ear33 fm.tmax (lengthV2 fm.tmin fm.tmax fm.sqrt) (m33Of a 0) with
@@ -190,20 +109,20 @@ def handle (fm : Fmt F) (ws : List String) : String :=
     bstr r.1 ++ " " ++ strs fm (matL 4 r.2.A ++ matL 4 r.2.V ++ vecL 4 r.2.Z)
   | "svd3" :: force :: su :: sv :: tol :: rest =>
     let a := (rest.map fm.pf).toArray
-    let t := svdFull fm 3 (force == "1") (fm.pf su) (fm.pf sv) (fm.pf tol) (M33.toFn (m33Of a 0))
+    let t := svdFull 3 (force == "1") (fm.pf su) (fm.pf sv) (fm.pf tol) fm.sqrt (M33.toFn (m33Of a 0))
     strs fm (matL 3 t.U ++ vecL 3 t.S ++ matL 3 t.V)
   | "svd4" :: force :: su :: sv :: tol :: rest =>
     let a := (rest.map fm.pf).toArray
-    let t := svdFull fm 4 (force == "1") (fm.pf su) (fm.pf sv) (fm.pf tol) (M44.toFn (m44Of a 0))
+    let t := svdFull 4 (force == "1") (fm.pf su) (fm.pf sv) (fm.pf tol) fm.sqrt (M44.toFn (m44Of a 0))
     strs fm (matL 4 t.U ++ vecL 4 t.S ++ matL 4 t.V)
   | "eig3" :: tol :: rest =>
     let a := (rest.map fm.pf).toArray
-    let r := eigFull fm 3 (fm.pf tol) (M33.toFn (m33Of a 0))
-    strs fm (r.A.toList ++ r.S.toList ++ r.V.toList)
+    let r := eigFull 3 (fm.pf tol) fm.sqrt (M33.toFn (m33Of a 0))
+    strs fm (matL 3 r.A ++ vecL 3 r.S ++ matL 3 r.V)
   | "eig4" :: tol :: rest =>
     let a := (rest.map fm.pf).toArray
-    let r := eigFull fm 4 (fm.pf tol) (M44.toFn (m44Of a 0))
-    strs fm (r.A.toList ++ r.S.toList ++ r.V.toList)
+    let r := eigFull 4 (fm.pf tol) fm.sqrt (M44.toFn (m44Of a 0))
+    strs fm (matL 4 r.A ++ vecL 4 r.S ++ matL 4 r.V)
   | "idx" :: n :: rest =>
     let a := (rest.map fm.pf).toArray
     let S : Nat → F := fun i => a[i]!
